@@ -1,5 +1,3 @@
 package main
 
-func cmdConc(args []string) int    { return 2 }
-func cmdMeasure(args []string) int { return 2 }
-func cmdRun1(args []string) int    { return 2 }
+func cmdRun1(args []string) int { return 2 }
